@@ -333,6 +333,48 @@ def check_broadcast(ctx, case) -> None:
         ctx.nt(["broadcast", name, len(a), len(b)], {"norm": name, "a": a[:3], "b": b[:3]})
 
 
+LONG = [1, 2, 3, 255, 256, 257, 4095, 4096, 4097, 65535, 65536, 65537, 65539, 131073, 262147, 1048579]
+
+
+def check_long(ctx, case) -> None:
+    """case = {"norm", "n"}: two arrays of n degrees on the k/64 grid, a[i] = (7 i mod 65)/64, b[i] = ((11 i + 3) mod
+    65)/64 (all 4225 pairs occur from n = 4225 on, the last elements are interior pairs). "Elementwise on arrays" has no
+    length limit: element i of the result is the 65 x 65 table entry of (a[i], b[i]); the table comes from 4225 scalar
+    calls, each compared with the Fraction reference."""
+    name, n = case["norm"], int(case["n"])
+    nm = make(name)
+    slack = 0.0 if name not in QUOTIENT else 1e-12
+    table = np.empty((65, 65))
+    for i in range(65):
+        for j in range(65):
+            table[i, j] = float(nm.compute(i / 64, j / 64))
+            r = float(ref(name, F(i, 64), F(j, 64)))
+            if not abs(table[i, j] - r) <= slack:
+                ctx.check(False, "formula", {"norm": name, "pts": [[i / 64, j / 64]], "exact": True, "shape": None},
+                          {"got": float(table[i, j]), "ref": r})
+                table[i, j] = r
+    idx = np.arange(n, dtype=np.int64)
+    ka, kb = (7 * idx) % 65, (11 * idx + 3) % 65
+    A, B = ka / 64.0, kb / 64.0
+    keepA, keepB = A.copy(), B.copy()
+    got = nm.compute(A, B)
+    ctx.ev()
+    ctx.check(bool(np.array_equal(A, keepA) and np.array_equal(B, keepB)), "argument-mutated", case, {})
+    ok = np.shape(got) == (n,)
+    ctx.check(ok, "long-shape", case, {"got": list(np.shape(got)), "want": [n]})
+    if ok:
+        want = table[ka, kb]
+        bad = ~(np.abs(np.asarray(got, dtype=float) - want) <= slack)
+        if bad.any():
+            i = int(np.argwhere(bad)[0][0])
+            ctx.check(False, "long-elementwise", case,
+                      {"first_wrong_index": i, "wrong_elements": int(bad.sum()), "a": float(A[i]), "b": float(B[i]),
+                       "got": float(np.asarray(got, dtype=float)[i]), "ref": float(want[i])})
+    if n > 8:
+        ctx.nt(["long", name, n], case)
+    ctx.cls("long_array>65536" if n > 65536 else "long_array<=65536")
+
+
 def check_crisp_dtypes(ctx, case) -> None:
     """Crisp degrees 0/1 given as booleans or integers (Function terms with and/or return numpy booleans as
     memberships): the norm's documented value, as for 0.0 / 1.0."""
@@ -362,6 +404,7 @@ def shard_boundary(ctx, shard, nshards):
         ctx.direct("pairs", check_pairs, [{"norm": name, "pts": pts, "exact": False, "shape": None}])
         ctx.cls("boundary_pairs", len(pts))
         ctx.direct("crisp", check_crisp_dtypes, [{"norm": name}])
+        ctx.direct("long", check_long, [{"norm": name, "n": n_} for n_ in LONG])
         # b in another order than a (and once of another length): with a == b the table is symmetric and a transposed
         # or row/column-swapped result would go unnoticed
         ctx.direct("broadcast", check_broadcast, [{"norm": name, "a": vals, "b": vals[::-1], "exact": False}])
@@ -404,7 +447,7 @@ def run(ctx) -> None:
 
 def replay(ctx, prop, case) -> None:
     fn = {"pairs": check_pairs, "triples": check_triples, "crisp": check_crisp_dtypes,
-          "broadcast": check_broadcast}.get(prop)
+          "broadcast": check_broadcast, "long": check_long}.get(prop)
     if fn:
         if prop == "broadcast" and "full" in case:  # the failing element was reported alone; replay its whole table
             case = {"norm": case["norm"], "a": case["full"]["a"], "b": case["full"]["b"], "exact": case.get("exact")}
